@@ -231,6 +231,25 @@ PROPS["C04"] = dict(
 )
 
 
+PROPS["C16"] = dict(
+    lean_targets=["Chihaya.Props.C16"],
+    props_files=["Chihaya/Props/C16.lean"],
+    facts=["lifecycle"],
+    streams=[dict(name="C16", quick=400, thorough=6000)],
+    rule="cases: stop groups of 0-6 members (delivering 0-3 errors each, AlreadyStopped, delayed) through the real pkg/stop; the real HTTP and UDP frontends on "
+         "loopback ports: Stop immediately after NewFrontend (with 0-1000 us delay), Stop while a post-response hook is gated inside AfterAnnounce, Stop after "
+         "traffic; observed: Stop completes, error count, listener closed once Stop has completed (TCP dial / UDP connect unanswered), whether Stop returned "
+         "while the post-hook was still running, second Stop; reload sequence keeping a populated store (scrape before/after); non-trivial = every life-cycle "
+         "scenario and every group with errors (model tags), distinct op lines",
+    trusted=["fact extractor lifecycle (go/ast): every go statement of the request path is preceded by wg.Add(1) and starts with defer wg.Done(); the HTTP servers are assigned in NewFrontend; "
+             "Run.Stop stops frontends, then logic, then (unless kept) the store",
+             "modelled not verified: net/http Server.Shutdown (closes listeners, waits for handlers), UDP socket deadline/close, goroutine scheduling; the theorems cover all "
+             "interleavings of the protocol model, the harness samples real schedules (timeouts 150 ms / 5 s)",
+             "cmd/chihaya signal handling (cobra, NotifyContext) is not modelled; the reload *sequence* is reproduced by the harness with the real components"],
+    assumptions=["members of a stop group terminate"],
+)
+
+
 def run_gen(name, repo, lean, work, goenv):
     """regenerate lean/Chihaya/Gen/<Name>.lean from the current source"""
     tr = os.path.join(work, "tr")
@@ -285,7 +304,7 @@ def context_of(stream, ops, i):
     return list(reversed(ctx))
 
 
-STATELESS = {"benc", "vi", "cfg", "appr", "http", "udp", "httpw"}  # trk.* and st.* (store) operations are stateful: context back to st.reset
+STATELESS = {"benc", "vi", "cfg", "appr", "http", "udp", "httpw", "grp", "life"}  # trk.* and st.* (store) operations are stateful: context back to st.reset
 
 
 def oracle(pid, stream, op, impl, model):
